@@ -133,6 +133,9 @@ import re as _re
 
 CALLS = "\0calls"   # env key: tuple of the Call nodes evaluated so far on this execution
 STMTS = "\0stmts"   # env key: tuple of the simple statements executed so far on this execution
+HANDLERS = "\0handlers"   # env key: tuple of the except handlers entered so far on this execution
+TESTS = "\0tests"   # env key: tuple of (atom text, value) in the order the atoms were decided on this execution (never killed)
+META = (CALLS, STMTS, HANDLERS, TESTS)
 
 
 def walk_under(fn_node, decide):
@@ -245,6 +248,7 @@ def walk_under(fn_node, decide):
         for v in ([d] if d is not None else [True, False]):
             en = dict(env)
             en[t] = v
+            en[TESTS] = en.get(TESTS, ()) + ((t, v),)
             out.append((en, (not v) if neg else v))
         return out
 
@@ -260,7 +264,7 @@ def walk_under(fn_node, decide):
         if not names:
             return env
         pat = _re.compile(r"\b(%s)\b" % "|".join(_re.escape(n) for n in names))
-        return {k: v for k, v in env.items() if k in (CALLS, STMTS) or not pat.search(k)}
+        return {k: v for k, v in env.items() if k in META or not pat.search(k)}
 
     def targets(t):
         return [n.id for n in ast.walk(t) if isinstance(n, ast.Name)]
@@ -313,7 +317,7 @@ def walk_under(fn_node, decide):
             for en, t in truth(st.test, env):
                 if t:
                     for a in block(st.body, en):
-                        out.append({CALLS: a.get(CALLS, ()), STMTS: a.get(STMTS, ())})
+                        out.append({k: a[k] for k in META if k in a})
                 else:
                     out.extend(block(st.orelse, en))
             return out
@@ -323,7 +327,8 @@ def walk_under(fn_node, decide):
             for en in body:
                 out.extend(block(st.orelse, en))
             for h in st.handlers:
-                out.extend(block(h.body, {CALLS: env.get(CALLS, ()), STMTS: env.get(STMTS, ())}))
+                out.extend(block(h.body, {CALLS: env.get(CALLS, ()), STMTS: env.get(STMTS, ()), TESTS: env.get(TESTS, ()),
+                                          HANDLERS: env.get(HANDLERS, ()) + (h,)}))
             res = []
             for en in out:
                 res.extend(block(st.finalbody, en))
@@ -375,3 +380,40 @@ def path_value(stmts, upto, expr, atoms):
             continue
         break
     return v
+
+
+def body_function(stmts, name="_body"):
+    """Wrap a statement list (a loop body, a branch) as a function node for walk_under."""
+    return ast.FunctionDef(name=name, args=ast.arguments(posonlyargs=[], args=[], kwonlyargs=[], kw_defaults=[], defaults=[]),
+                           body=list(stmts), decorator_list=[], lineno=getattr(stmts[0], "lineno", 0), col_offset=0)
+
+
+def truths_of(expr, decide):
+    """Set of truth values ``expr`` can take on executions consistent with ``decide``."""
+    fn = body_function([ast.If(test=expr, body=[ast.Return(value=ast.Constant(value=True))], orelse=[]),
+                        ast.Return(value=ast.Constant(value=False))])
+    ast.fix_missing_locations(fn)
+    _ev, exits = walk_under(fn, decide)
+    return {st.value.value for kind, st, env in exits if kind == "return"}
+
+
+def returned_truths(fn_node, decide):
+    """Set of truth values a predicate function can return on executions consistent with ``decide`` ('raise' if it can raise)."""
+    _ev, exits = walk_under(fn_node, decide)
+    out = set()
+    for kind, st, env in exits:
+        if kind == "raise":
+            out.add("raise")
+        elif kind == "return":
+            if st.value is None:
+                out.add(False)
+                continue
+            atoms = {a: b for a, b in env.items() if a not in META}
+            v = path_value(env.get(STMTS, ()), st, st.value, atoms)
+
+            def inner(t, atoms=atoms):
+                return atoms[t] if t in atoms else decide(t)
+            out |= truths_of(v, inner)
+        else:
+            out.add(False)
+    return out
